@@ -371,21 +371,23 @@ def run(ctx, replay_jobs=None, replay_glue=None):
     if glue and glue["fails"]:
         fails += [("glue", g, m) for g, m in glue["fails"]]
 
-    if f5:
-        ji, si = f5[0]
+    gf5 = glue["f5"] if glue else []
+    if f5 or gf5:
         if any(k["id"] == "F5" for k in C.known_open("C18")):
-            C.known(ctx, "F5", "boundary draw: %d samples with random.uniform(0, mean) == 0 select a zero-rate cell, "
-                    "e.g. Walker rates %s row %d u=%s -> cell %s (rate 0)"
-                    % (len(f5), [str(r) for r in jobs[ji].rates], jobs[ji].samples[si][0], jobs[ji].samples[si][1],
-                       jobs[ji].res["samples"][si][0]))
-        else:
+            msg = "boundary draw random.uniform(0, mean) == 0.0 selects a zero-rate cell: "
+            if f5:
+                ji, si = f5[0]
+                msg += ("%d Walker.sample_cell draws, e.g. rates %s row %d u=%s -> cell %s (rate 0); "
+                        % (len(f5), [str(r) for r in jobs[ji].rates], jobs[ji].samples[si][0],
+                           jobs[ji].samples[si][1], jobs[ji].res["samples"][si][0]))
+            msg += ("%d send_event_time calls of the cell-veto handler then fail  assert bounding_event_rate > 0"
+                    % len(gf5))
+            C.known(ctx, "F5", msg)
+        elif f5:
+            ji, si = f5[0]
             fails.insert(0, (ji, si, "uniform draw 0 selects a zero-rate cell (finding F5 is not listed as open)"))
-    if glue and glue["f5"]:
-        if any(k["id"] == "F5" for k in C.known_open("C18")):
-            C.known(ctx, "F5", "cell-veto handler: %d send_event_time calls with the uniform draw 0.0 sampled a "
-                    "zero-bound cell offset and failed the assert bounding_event_rate > 0" % len(glue["f5"]))
         else:
-            fails.insert(0, ("glue", glue["f5"][0], "send_event_time asserts after a 0.0 draw (F5 not listed as open)"))
+            fails.insert(0, ("glue", gf5[0], "send_event_time asserts after a 0.0 draw (F5 not listed as open)"))
     if fails:
         ji, si, m = fails[0]
         if ji == "glue":
